@@ -252,6 +252,9 @@ def check_fit_case(d, case, cov=None):
     src = np.array(case["src"], float)
     A, b = np.array(case["A"], float), np.array(case["b"], float)
     dst = src @ A + b
+    noise = case.get("noise")
+    if noise is not None:
+        return check_noisy_fit_case(d, case, cov)
     bad = []
     cname = "AdaptiveBalance" if entry == "adaptive-call" else CLS[mode]
     if entry == "shortcut":
@@ -312,6 +315,49 @@ def check_fit_case(d, case, cov=None):
         bad.append((f"C12:{cname}.find_balance:exact-{mode}-map-not-recovered{tag}",
                     f"max |apply_balance(src) − dst| = {err:.3g} > {TOL_FIT} after fit (+1 re-fit) on an exact {mode} ground truth"
                     + (" starting from a non-identity balance" if start is not None else "")))
+    return bad
+
+
+def ls_optimum(mode, src, dst):
+    """closed-form least-squares optimum of the objective of each class (numpy), used as a START balance"""
+    S, D = src.reshape(-1, 3), dst.reshape(-1, 3)
+    if mode == "diagonal":
+        return np.diag((S * D).sum(axis=0) / (S * S).sum(axis=0)), np.zeros(3)
+    if mode == "linear":
+        return np.linalg.lstsq(S, D, rcond=None)[0], np.zeros(3)
+    X = np.linalg.lstsq(np.hstack([S, np.ones((S.shape[0], 1))]), D, rcond=None)[0]
+    return X[:3], X[3]
+
+
+def check_noisy_fit_case(d, case, cov=None):
+    """INEXACT destinations (truth + noise): whatever balance the fit starts from - the identity, or the least-squares optimum
+    itself - find_balance must not return a balance with a larger swatch residual (property: 'fitting never increases the swatch
+    residual relative to the balance it started from')"""
+    mode = case["mode"]
+    src = np.array(case["src"], float)
+    A, b = np.array(case["A"], float), np.array(case["b"], float)
+    dst = src @ A + b + np.array(case["noise"], float).reshape(src.shape)
+    cname = CLS[mode]
+    bad = []
+    for start in ("identity", "least-squares optimum"):
+        bal = call(getattr(d, cname))
+        if isinstance(bal, Raised):
+            return [(f"C12:{cname}():raises", f"{bal}")]
+        if start != "identity":
+            As, bs = ls_optimum(mode, src, dst)
+            bal.balance_scaling = As
+            if mode == "affine":
+                bal.balance_translation = bs
+        before = call(objective, bal, src, dst)
+        r = call(bal.find_balance, src, dst)
+        if isinstance(r, Raised) or isinstance(before, Raised):
+            return [(f"C12:{cname}.find_balance:raises", f"{r}")]
+        after = objective(bal, src, dst)
+        if cov is not None:
+            cov["noisy_fit_ratio_max"] = max(cov.get("noisy_fit_ratio_max", 0.0), after / before if before > 0 else 0.0)
+        if after > before * (1 + 1e-6) + 1e-14:
+            bad.append((f"C12:{cname}.find_balance:objective-increased(inexact destinations,start={start.split()[0]})",
+                        f"noisy destinations, start = {start}: swatch residual {before:.6g} -> {after:.6g}"))
     return bad
 
 
@@ -498,11 +544,14 @@ def corr_entry_points(ctx, d):
         A, b = rand_stage(ctx.rng, m)
         shape = ctx.rng.choice([(4, 3), (2, 3, 3), (4, 6, 3)])
         n = int(np.prod(shape[:-1]))
-        pts = [[Fr(ctx.rng.randint(0, 8), 8) for _ in range(3)] for _ in range(n)]
+        int_img = (i // 9) % 2 == 1  # integer-typed images: the balance must still act as a real matrix
+        pts = [[Fr(ctx.rng.randint(0, 40)) if int_img else Fr(ctx.rng.randint(0, 8), 8) for _ in range(3)] for _ in range(n)]
         lines.append(f"stages new 1 {stage_tokens(m, A, b)} {n} " + " ".join(fmt(x) for p in pts for x in p))
 
         def run():
             img = np.array([[float(x) for x in p] for p in pts]).reshape(shape)
+            if int_img:
+                img = img.astype(np.uint8 if i % 2 else np.uint16)
             queue, log = [(m, A, b)], []
             with Stub(d, queue, log):
                 if entry == "shortcut":
@@ -587,24 +636,33 @@ def check_layout_case(d, case):
     mode = case["mode"]
     A, b = np.array(case["A"], float), np.array(case["b"], float)
     sw = np.array(case["src"], float)
+    idt = case.get("img_dtype", "float64")
+    if idt in ("uint8", "uint16"):
+        # integer-typed swatches / images (values read off a raw 8 / 16 bit image): the balance is NOT an integer map
+        sw = np.round(sw * (255 if idt == "uint8" else 4095)).astype(idt)
+    elif idt == "float32":
+        sw = sw.astype(np.float32)
     bal = call(getattr(d, CLS[mode]))
     if isinstance(bal, Raised):
         return [(f"C12:{CLS[mode]}():raises", f"{bal}")]
     bal.balance_scaling = A
     if mode == "affine":
-        bal.balance_translation = b
+        bal.balance_translation = b if idt not in ("uint8", "uint16") else b * (255 if idt == "uint8" else 4095)
     g = call(bal.apply_balance, sw)
     f = call(bal.apply_balance, sw.reshape(-1, 3))
     if isinstance(g, Raised) or isinstance(f, Raised):
         return [(f"C12:{CLS[mode]}.apply_balance:raises(layout)", f"{g} {f}")]
     bad = []
-    exp = sw.reshape(-1, 3) @ A + (b if mode == "affine" else 0.0)
-    tol = 0.0 if case.get("dyadic") else 1e-14
+    exp = sw.reshape(-1, 3).astype(np.float64) @ A + (np.asarray(bal.balance_translation, float) if mode == "affine" else 0.0)
+    tol = 0.0 if (case.get("dyadic") and idt == "float64") else (1e-14 if idt == "float64" else 1e-5 * (1 + float(np.abs(exp).max())))
+    if idt != "float64":
+        g, f = np.asarray(g, np.float64), np.asarray(f, np.float64)
     if g.shape != sw.shape or f.shape != (sw.size // 3, 3) or float(np.abs(g.reshape(-1, 3) - f).max()) > tol:
         bad.append((f"C12:{CLS[mode]}.apply_balance:reshape-does-not-commute",
                     f"apply_balance on shape {sw.shape} and on its flat Nx3 view differ by {float(np.abs(g.reshape(-1, 3) - f).max()):.3g}"))
     if float(np.abs(f - exp).max()) > tol:
-        bad.append((f"C12:{CLS[mode]}.apply_balance:not-row-vector-action", f"apply_balance != x @ A (+ b): {float(np.abs(f - exp).max()):.3g}"))
+        bad.append((f"C12:{CLS[mode]}.apply_balance:not-row-vector-action({idt})",
+                    f"apply_balance on a {idt} array != x @ A (+ b): {float(np.abs(f - exp).max()):.3g}"))
     return bad
 
 
@@ -800,6 +858,18 @@ def oracle(ctx, d):
             case["entry"] = kind
         ctx.count(("fit-entry", kind, mode, i))
         report(ctx, check_fit_case(d, case, ctx.cov), case)
+    # inexact destinations: brightness-correlated error and plain noise, start = identity and = least-squares optimum
+    for i in range(ctx.pick(9, 60)):
+        mode = MODES[i % 3]
+        src = rand_swatches(rng, flat=bool(i % 2))
+        A, b = rand_truth(rng, mode, amp=0.1)
+        flat = src.reshape(-1, 3)
+        bright = flat.mean(axis=1, keepdims=True)
+        noise = (0.08 * (0.5 - bright) * np.ones((1, 3)) if (i // 3) % 2 == 0
+                 else np.array([[rng.uniform(-0.04, 0.04) for _ in range(3)] for _ in range(flat.shape[0])]))
+        case = dict(mode=mode, src=src.tolist(), A=A.tolist(), b=b.tolist(), noise=noise.reshape(src.shape).tolist())
+        ctx.count(("noisy-fit", mode, i))
+        report(ctx, check_fit_case(d, case, ctx.cov), case)
     # stage order inside ColorCorrection on a non-affine camera response
     for i in range(ctx.pick(2, 6)):
         case = dict(order=True, mode=("affine", "linear")[i % 2],
@@ -821,7 +891,8 @@ def oracle(ctx, d):
             A, b = rand_truth(rng, mode)
             A, b = A.tolist(), b.tolist()
             src = rand_swatches(rng, flat=bool(i % 4 == 1))
-        case = dict(layout=True, mode=mode, dyadic=dyadic, A=A, b=b, src=src.tolist())
+        case = dict(layout=True, mode=mode, dyadic=dyadic, A=A, b=b, src=src.tolist(),
+                    img_dtype=("float64", "uint8", "float32", "uint16")[(i // 3) % 4])
         ctx.count(("layout", mode, i))
         report(ctx, check_layout_case(d, case), case)
     # ColorCorrection pipeline with real fits
